@@ -12,6 +12,9 @@ pub mod e2;
 pub mod vclock;
 pub mod kv;
 pub mod rng;
+pub mod sim;
+pub mod nodes;
+pub mod e1;
 
 pub const VERIF_DIR: &str = "/verif";
 
